@@ -1,7 +1,11 @@
 package props
 
 import (
+	"cqlsim/simnet"
+	"cqlsim/simrt"
+	"crypto/tls"
 	"fmt"
+	"io"
 	"strings"
 	"time"
 
@@ -42,6 +46,10 @@ func c17(e *Env) {
 	cfg.IdleTimeout = 12 * time.Second
 	cfg.ReconnBase = 100 * time.Millisecond
 	cfg.ReconnMax = 2 * time.Second
+	if c.Choose("tls-listener", 8) == 7 {
+		c17TLS(e, cfg)
+		return
+	}
 	w, pi := boot(e, cfg)
 	w.ScriptBeatsUnprepared = true
 	if pi.BootErr != nil || pi.Listener == nil {
@@ -53,6 +61,7 @@ func c17(e *Env) {
 	healthy := w.Nodes[0] // one node never misbehaves
 	healthy.NeverHostile = true
 	canary := w.ConnectClient(pi, cfg.ProxyVersion)
+	canary.TolerateGarbage = true // judged by this scenario (canary-received-garbage / canary-cannot-decode)
 	st := canary.Send("startup", "", message.NewStartup(), nil)
 	if !w.RunUntil(func() bool { return len(st.Replies) > 0 }, time.Minute) {
 		return
@@ -360,4 +369,117 @@ func safeEncode(fr *frame.Frame) (raw []byte) {
 		}
 	}()
 	return world.EncodeFrame("", fr)
+}
+
+// c17TLS: the client-facing listener is a TLS listener (--proxy-cert-file / --proxy-key-file).
+// Clients that stall or garble the TLS handshake must not keep a well-behaved TLS client, which
+// connects after them, from being served.
+func c17TLS(e *Env, cfg world.Config) {
+	c := e.C
+	key := c19key(7)
+	now := time.Now()
+	_, der := mintCert(certSpec{cn: "proxy.test", dns: []string{"proxy.test"}, notBefore: now.Add(-time.Hour), notAfter: now.Add(24 * time.Hour)}, key, nil, nil, 4242)
+	cfg.ClientTLS = &tls.Config{Certificates: []tls.Certificate{{Certificate: [][]byte{der}, PrivateKey: key}}, MinVersion: tls.VersionTLS12}
+	cfg.FragProb = 0 // TLS records carry random bytes: fragment positions would differ between executions
+	w, pi := boot(e, cfg)
+	if pi.BootErr != nil || pi.Listener == nil {
+		if !w.Stopped() {
+			e.Res.Infra = "proxy did not boot: " + errStr(pi.BootErr)
+		}
+		return
+	}
+	w.Quiesce()
+	e.Res.Stats["probe.c17.tls_listener"]++
+	// hostile peers at the TLS layer
+	nh := 1 + c.Choose("tlshostiles", 4)
+	for i := 0; i < nh; i++ {
+		pe := &simnet.PeerEnd{}
+		l, err := w.N.Connect(pi.Listener, pe, nil, fmt.Sprintf("tls-hostile%d", i))
+		if err != nil {
+			return
+		}
+		pe.L = l
+		switch c.Choose("tlshostilekind", 6) {
+		case 0: // says nothing at all
+		case 1: // the first bytes of a record, then silence
+			l.PeerWrite([]byte{0x16, 0x03, 0x01})
+		case 2: // a record header announcing more than ever comes
+			l.PeerWrite([]byte{0x16, 0x03, 0x01, 0x40, 0x00, 0x01, 0x00, 0x3f, 0xfc})
+		case 3: // not TLS
+			l.PeerWrite([]byte("GET / HTTP/1.1\r\nHost: x\r\n\r\n"))
+		case 4: // a CQL frame in the clear
+			l.PeerWrite(world.EncodeFrame("", frame.NewFrame(4, 1, message.NewStartup())))
+		case 5: // an alert, then half-close
+			l.PeerWrite([]byte{0x15, 0x03, 0x03, 0x00, 0x02, 0x02, 0x28})
+			l.PeerClose()
+		}
+		w.RunUntil(func() bool { return false }, time.Duration(c.Choose("tlsgap", 300))*time.Millisecond)
+	}
+	// the well-behaved TLS client arrives afterwards
+	pe := &simnet.PeerEnd{}
+	l, err := w.N.Connect(pi.Listener, pe, nil, "tls-canary")
+	if err != nil {
+		return
+	}
+	pe.L = l
+	stage, tok, got := "", w.NewToken(), ""
+	done := false
+	simrt.Go("tls-canary", func() {
+		defer func() { done = true }()
+		tc := tls.Client(pe, &tls.Config{InsecureSkipVerify: true, ServerName: "proxy.test"})
+		stage = "handshake"
+		if err := tc.Handshake(); err != nil {
+			got = "handshake failed: " + err.Error()
+			return
+		}
+		exchange := func(fr *frame.Frame) (*frame.Frame, error) {
+			if _, err := tc.Write(world.EncodeFrame("", fr)); err != nil {
+				return nil, err
+			}
+			hdr := make([]byte, 9)
+			if _, err := io.ReadFull(tc, hdr); err != nil {
+				return nil, err
+			}
+			body := make([]byte, int(hdr[5])<<24|int(hdr[6])<<16|int(hdr[7])<<8|int(hdr[8]))
+			if _, err := io.ReadFull(tc, body); err != nil {
+				return nil, err
+			}
+			return world.DecodeFrame("", append(hdr, body...))
+		}
+		stage = "startup"
+		r, err := exchange(frame.NewFrame(cfg.ProxyVersion, 1, message.NewStartup()))
+		if err != nil {
+			got = "startup: " + err.Error()
+			return
+		}
+		if _, ok := r.Body.Message.(*message.Ready); !ok {
+			got = fmt.Sprintf("startup answered with %v", r.Body.Message)
+			return
+		}
+		stage = "query"
+		r, err = exchange(frame.NewFrame(cfg.ProxyVersion, 2, world.QueryMsg("SELECT * FROM ks.t WHERE k = '"+tok+"'", primitive.ConsistencyLevelOne)))
+		if err != nil {
+			got = "query: " + err.Error()
+			return
+		}
+		rr, ok := r.Body.Message.(*message.RowsResult)
+		if !ok || len(rr.Data) != 1 || string(rr.Data[0][0]) != tok {
+			got = fmt.Sprintf("query answered with %v", r.Body.Message)
+			return
+		}
+		stage = "served"
+	})
+	w.RunUntil(func() bool { return done }, 2*time.Minute)
+	if w.Stopped() {
+		return
+	}
+	if stage != "served" {
+		blocked, _ := blockedReport(e.S)
+		w.Violate("c17-canary", "tls-client-not-served", fmt.Sprintf("a well-behaved TLS client that connected after %d stalling or garbling peers was not served: stuck at %q (%s); blocked: [%s]", nh, stage, got, blocked))
+		return
+	}
+	e.Res.Stats["oracle.c17.tls_canary_served"]++
+	e.Res.Nontrivial = true
+	e.Res.Sample = fmt.Sprintf("TLS listener: %d hostile peers at the TLS layer, then a well-behaved TLS client served", nh)
+	e.Res.Shape = fmt.Sprintf("tls h%d", nh)
 }
